@@ -80,6 +80,12 @@ func NewClient(krb5Cl *client.Client, httpCl *http.Client, spn string) *Client {
 
 // Do is the SPNEGO enabled HTTP client's equivalent of the http.Client's Do method.
 func (c *Client) Do(req *http.Request) (resp *http.Response, err error) {
+	return c.do(req, 0)
+}
+
+// do performs the request. authAttempts is the number of times the request has already been
+// retried with a SPNEGO header in response to a 401 Negotiate challenge.
+func (c *Client) do(req *http.Request, authAttempts int) (resp *http.Response, err error) {
 	var body bytes.Buffer
 	if req.Body != nil {
 		// Use a tee reader to capture any body sent in case we have to replay it again
@@ -101,12 +107,16 @@ func (c *Client) Do(req *http.Request) (resp *http.Response, err error) {
 					// Refresh the body reader so the body can be sent again
 					e.reqTarget.Body = io.NopCloser(&body)
 				}
-				return c.Do(e.reqTarget)
+				return c.do(e.reqTarget, 0)
 			}
 		}
 		return resp, err
 	}
 	if respUnauthorizedNegotiate(resp) {
+		if authAttempts >= 1 {
+			// The server has rejected the SPNEGO header already sent. Return its response rather than retrying forever.
+			return resp, err
+		}
 		err := SetSPNEGOHeader(c.krb5Client, req, c.spn)
 		if err != nil {
 			return resp, err
@@ -117,7 +127,7 @@ func (c *Client) Do(req *http.Request) (resp *http.Response, err error) {
 		}
 		io.Copy(io.Discard, resp.Body)
 		resp.Body.Close()
-		return c.Do(req)
+		return c.do(req, authAttempts+1)
 	}
 	return resp, err
 }
